@@ -11,6 +11,7 @@ import EpgVerif.Model.Guards
 import EpgVerif.Model.ND
 import EpgVerif.Model.Diffusion
 import EpgVerif.Model.Imaging
+import EpgVerif.Model.Exchange
 /-
   Line-protocol driver over the executable model at `K := CF` (DESIGN Appendix A).
   One request per line; floats travel as the decimal of their IEEE-754 bits.
@@ -122,6 +123,7 @@ structure DState where
   nds : NDS K4 CF := NDS.init (0 : K4) (1 : CF)
   nops : Array (NOp K4 CF) := #[]
   npd : CF := 1
+  xs : Array (SM CF) := #[]
   items : Array (Sim.Item CF) := #[]
   probes : Array (Option (Sim.AdcSpec CF)) := #[]
 
@@ -446,6 +448,24 @@ def step (d : DState) (line : String) : DState × List String :=
   | ["nsynth", k0, k1, k2, x0, x1, x2, tv, w] =>
       let χ := posCharF #[fOfTok k0, fOfTok k1, fOfTok k2] #[fOfTok x0, fOfTok x1, fOfTok x2] (fOfTok tv) (fOfTok w)
       (d, ["ns " ++ showPS (d.nds.synthExec χ), "nb " ++ showPS (blochRunN χ d.npd d.nops.toList ⟨0, 0, d.npd⟩)])
+  | "xinit" :: pds => ({ d with xs := (pds.map (fun p => SM.init (cOfTok p))).toArray }, [])
+  | "xop" :: rest =>
+      (match parseOp rest with
+       | some op => ({ d with xs := d.xs.map (applyOp d.opts op) }, [])
+       | none => (d, [s!"bad-op {line}"]))
+  | "xopc" :: i :: rest =>
+      (match parseOp rest with
+       | some op => ({ d with xs := d.xs.modify i.toNat! (applyOp d.opts op) }, [])
+       | none => (d, [s!"bad-op {line}"]))
+  | "xx" :: tau :: n :: rest =>
+      let n := n.toNat!
+      let v := rest.toArray.map cOfTok
+      let khi : Exch.Mat CF := fun i j => v.getD (i * n + j) 0
+      let rT1 : Nat → CF := fun i => v.getD (n * n + i) 0
+      let rT2 : Nat → CF := fun i => v.getD (n * n + n + i) 0
+      let g : Nat → CF := fun i => v.getD (n * n + 2 * n + i) 0
+      ({ d with xs := (Exch.applyXSM (Exch.expmTaylor n 12 20) (cOfTok tau) khi rT1 rT2 g d.xs.toList).toArray }, [])
+  | ["xdump"] => (d, d.xs.toList.map dumpSM)
   | "guard" :: rest => (d, [guardCmd rest])
   | ["dumpd"] => (d, dumpDiff d)
   | ["dumpj"] => (d, dumpJets d)
